@@ -1,6 +1,6 @@
 """Per-property configuration: streams, observation alphabets, non-triviality rules, monitors."""
 import os
-from .core import Stream, sections, fdec, FLOAT_TOK
+from .core import Stream, sections, fdec, FLOAT_TOK, split_cases
 
 TRUSTED_COMMON = [
     "Lean 4.33 kernel; axioms of each theorem audited on every run to be within {propext, Classical.choice, Quot.sound}",
@@ -220,7 +220,7 @@ def exch_streams(kind, prop_tags_uist, prop_tags_jura, q=300, t=30000, canon=Non
     ss = []
     if prop_tags_uist is not None:
         ss.append(Stream("uist", kind, quick=q, thorough=t, tags=set(prop_tags_uist) | {"REJECT-ADMISSION", "PANIC", "ok", "reset", "bad-op"},
-                         state_tags=EXCH_STATE - set(prop_tags_uist), canon=canon))
+                         state_tags=EXCH_STATE - set(prop_tags_uist), canon=canon, exact="uist-exact"))
     if prop_tags_jura is not None:
         ss.append(Stream("jura", kind, quick=q, thorough=t, tags=set(prop_tags_jura) | {"REJECT-ADMISSION", "PANIC", "ok", "reset", "bad-op"},
                          state_tags=EXCH_STATE - set(prop_tags_jura)))
@@ -542,6 +542,38 @@ class C17(Prop):
                 yield (k, "fills-in-admission-order", f"fill ids {fills[:30]}")
                 return
 
+    def extra(self, stream, runs, wdir, tier, collect):
+        """evidence only, never a verdict: how many admitted batches of at most 20 orders came out exactly as the insertion sort
+        of `Lemmas/SmallSort.lean` predicts under the one-sided comparator (the sells, last arrived first, then the buys in order
+        of arrival; theorem C17.small_slice_sort_is_sell_first). The standard library may change its small-slice algorithm
+        without breaking the property, so a mismatch is a statistic, not an alarm."""
+        uist = stream.component == "uist"
+        tot = hit = 0
+        for ops, annot, impl in runs:
+            for a, i in zip(split_cases(annot), split_cases(impl)):
+                if len(a) != len(i):
+                    continue
+                try:
+                    for k, op, s, book, batch, ticks in walk_exchange(stream, a, i):
+                        if not op.startswith("T ") or " A " not in op or "F" not in s:
+                            continue
+                        toks = op.split(" A ")[1].split()[1:]
+                        if not toks or toks == ["BAD"] or not (2 <= len(batch) <= 20):
+                            continue
+                        idx = [int(x) for x in toks]
+                        if sorted(idx) != list(range(len(batch))):
+                            continue
+                        sell = [is_sell(int(b[0])) if uist else b[1] == "0" for b in batch]
+                        pred = [j for j in reversed(range(len(batch))) if sell[j]] + [j for j in range(len(batch)) if not sell[j]]
+                        tot += 1
+                        hit += idx == pred
+                except Exception:
+                    continue
+        rs = collect["run_stats"]
+        rs[f"{stream.component}.small_batches_le20"] = rs.get(f"{stream.component}.small_batches_le20", 0) + tot
+        rs[f"{stream.component}.small_batches_le20_equal_to_insertion_sort_model"] = \
+            rs.get(f"{stream.component}.small_batches_le20_equal_to_insertion_sort_model", 0) + hit
+
 
 class C18(Prop):
     id = "C18"
@@ -706,14 +738,19 @@ def srv_datasets(annot):
 
 
 def srv_wellformed(annot):
-    """the property's datasets: d1 < ... < dN, which is what add_quote calls in non-decreasing date order build
-    (C07.dataset_loaded_in_date_order_is_increasing); a date may be quoted by several calls (more symbols, revisions)"""
-    seen = {}
+    """the property's datasets: d1 < ... < dN. A store lists each stored date once, in the order in which the dates were first
+    added (C07.dataset_lists_each_stored_date_once), so the datasets the property speaks about are those whose dates *first
+    appear* in increasing order: add_quote calls in non-decreasing date order (C07.dataset_loaded_in_date_order_is_increasing),
+    and also a dataset loaded one symbol at a time whose first symbol covers every date
+    (C07.dataset_loaded_symbol_by_symbol); a date may be quoted by several calls (more symbols, revisions)"""
+    ds = {}
     for op in annot:
         t = op.split()
-        if t[0] == "Q" and int(t[3]) > 0:
-            seen.setdefault(t[1], []).append(int(t[2]))
-    return all(v == sorted(v) for v in seen.values())
+        if t and t[0] == "Q" and int(t[3]) > 0:
+            d = int(t[2])
+            if d not in ds.setdefault(t[1], []):
+                ds[t[1]].append(d)
+    return all(all(a < b for a, b in zip(v, v[1:])) for v in ds.values())
 
 
 def srv_case_in_domain(ops):
@@ -1071,7 +1108,7 @@ BRK_TAGS = {"EV", "G", "H", "P", "HP", "S", "TV", "LV", "K", "T", "V", "XB", "XK
 def brk_stream(flavour, tags, q=300, t=30000, rtol=1e-9):
     return Stream("broker", flavour, quick=q, thorough=t, rtol=rtol,
                   tags=set(tags) | {"PANIC", "REJECT-ADMISSION", "ok", "reset", "bad-op"},
-                  state_tags=BRK_TAGS - set(tags))
+                  state_tags=BRK_TAGS - set(tags), exact="broker-exact")
 
 
 BRK_NOTE = ("Proof over the broker model in exact arithmetic (any linearly ordered field with floor); binary64 rounding is outside the "
@@ -1583,6 +1620,8 @@ class C12(Prop):
                 yield (k, "at-most-one-order-per-target-symbol", f"{orders} for weights {weights}")
                 return
             total = fdec(prev.lv)
+            if total != total or total in (float("inf"), float("-inf")) or any(w != w or w in (float("inf"), float("-inf")) for w in weights.values()):
+                raise NonFinite("liquidation value or weight")    # an earlier infinite order (net price exactly 0, DESIGN §13) has left the finite numbers
             for sym, w in weights.items():
                 p = prev.per[sym]
                 mine = [o for o in orders if o[1] == sym]
@@ -1601,6 +1640,8 @@ class C12(Prop):
                 buy = gap > 0
                 px = fdec(p["ask"]) if buy else fdec(p["bid"])
                 nb, np_ = impact_total(costs, abs(gap), px, buy)
+                if nb != nb or np_ != np_ or abs(nb) == float("inf") or abs(np_) == float("inf"):
+                    raise NonFinite("net budget / net price")
                 # the whole number of shares the cost model gives, in exact rationals, with a one-ulp boundary allowance
                 exact = Fraction(nb) / Fraction(np_) if np_ != 0 else None
                 if not mine:
@@ -1627,8 +1668,8 @@ class C12(Prop):
 
 class C13(Prop):
     id = "C13"
-    streams = [Stream("cost", "grid", quick=150, thorough=20000, tags={"NB", "NP", "N", "FEE", "SAME"}, rtol=1e-12),
-               Stream("cost", "wide", quick=150, thorough=20000, tags={"NB", "NP", "N", "FEE", "SAME"}, rtol=1e-12)]
+    streams = [Stream("cost", "grid", quick=150, thorough=20000, tags={"NB", "NP", "N", "FEE", "SAME"}, rtol=1e-12, exact="cost-exact"),
+               Stream("cost", "wide", quick=150, thorough=20000, tags={"NB", "NP", "N", "FEE", "SAME"}, rtol=1e-12, exact="cost-exact")]
     determined = False
     rule = ("cost lists of length 0..6 in random order (per-share, percentage with sum below 100%, flat), budgets from 0 to 100000 and prices "
             "on a grid and wide random; each evaluation calls BrokerCost::trade_impact_total and calc directly and through a real "
@@ -1907,6 +1948,7 @@ class C16(Prop):
 
     def monitor(self, stream, annot, impl):
         net = Fraction(0)
+        gross = Fraction(0)     # sum of |flows|: binary64 sums of flows of magnitude M carry an error of about M * 1e-16 each
         deposited_any = False
         constant = stream.flavour == "constant"
         last_date = None
@@ -1917,6 +1959,7 @@ class C16(Prop):
             s = sections(out)
             if t[0] == "RESET":
                 net, deposited_any, last_date, hl = Fraction(0), False, None, 0
+                gross = Fraction(0)
                 prev_ready, pos_prev, tv_nonzero, tv_prev = True, 0, False, 0.0
                 continue
             if out in ("dead", "ok") or "K" not in s and "PANIC" not in s:
@@ -1931,8 +1974,10 @@ class C16(Prop):
             ready = s["S"] == ["Ready"]
             if t[0] == "INIT" and prev_ready:
                 net += fr(t[1])
+                gross += abs(fr(t[1]))
             if t[0] == "WD" and s["EV"] == ["WOK"]:
                 net -= fr(t[1])
+                gross += abs(fr(t[1]))
             snaps = []
             if t[0] == "UPDATE":
                 snaps = [(int(s["SN"][0]), s["SN"][1], s["SN"][2])]
@@ -1958,10 +2003,12 @@ class C16(Prop):
                     yield (k, "snapshot-dates-non-decreasing", f"{last_date} then {d}")
                     return
                 last_date = d
-                if not close(fr(ncf), net, 1e-9, 1.0):
+                # a residue of 1e-4 after flows of 1e12 is the last bit of the running binary64 sum, not a lost flow
+                slack = 1e-13 * float(gross)
+                if not close(fr(ncf), net, 1e-9, 1.0) and abs(float(fr(ncf) - net)) > slack:
                     yield (k, "net-cash-flow-is-deposits-minus-withdrawals", f"snapshot net_cash_flow {fdec(ncf)}, deposits - withdrawals so far {float(net)}")
                     return
-                if constant and not close(fr(v), net, 1e-9, 1.0):
+                if constant and not close(fr(v), net, 1e-9, 1.0) and abs(float(fr(v) - net)) > slack:
                     yield (k, "trading-creates-no-value", f"constant prices, zero spread: snapshot value {fdec(v)}, cash deposited (net) {float(net)}")
                     return
             hl = int(s["HL"][0])
